@@ -303,7 +303,7 @@ func init() {
 	register(&core.Check{
 		Prop: "C06", Level: "model_checking", Exhaust: true, QuickSecs: 400, ThorSecs: 3000,
 		Rule: "(a) every (LALR state, terminal) cell of both automata (access sentence + terminal + tail; thorough: 3 tails): the reference LR driver, run on the tokens the real scanner returns, says valid/invalid — invalid => >= 1 error; every corpus program with one bracket inserted at or deleted from any token boundary, appended, or truncated inside brackets, kept when the scanner's token string is unbalanced (every rule of both grammars is bracket-balanced, checked at run time, so unbalanced => invalid); driver-invalid corpus sentences. " +
-			"(b) zero errors => non-nil root whose tokens cover the whole source. (c) on all of the above, on grammar-action error programs and on E-bytes (<= 2/3 symbols over 67, one more over the core, 15 contexts, 7.4 and 5.6): every error has a non-empty message and no position or an in-range position with the reference start/end line, selecting a scanner token (syntax errors) or the offending byte (scanner warnings); positions arrive in non-decreasing order. (d) the tree with and without callback is identical (kinds, values, tokens, positions). " +
+			"(b) zero errors => non-nil root whose tokens cover the whole source. (c) on all of the above, on grammar-action error programs and on E-bytes (<= 2/3 symbols over the 70-symbol alphabet, one more over the core, 15 contexts, 7.4 and 5.6): every error has a non-empty message and no position or an in-range position with the reference start/end line, selecting a scanner token (syntax errors) or the offending byte (scanner warnings); positions arrive in non-decreasing order. (d) the tree with and without callback is identical (kinds, values, tokens, positions). " +
 			"states/transitions: LALR states and action cells driven; traces = cell programs classified by the reference driver and replayed on the real parser. non-trivial = parsed without crash; distinct by (version, source)",
 		Assume: []string{"goyacc -v describes the automaton compiled into php5.go/php7.go (the drivers' verdicts are replayed on the real parser; disagreement is reported as a violation of (a))"},
 		Run:    c06Run,
